@@ -705,7 +705,7 @@ impl Prop for C18 {
         200
     }
     fn build(&self, ch: &mut Chooser, cx: &mut CaseCtx) -> C18Case {
-        let o = WsGenOpts { fail_chance: 4, max_patches: 4, max_files: 4, max_lines: 12, ..Default::default() };
+        let o = WsGenOpts { fail_chance: 4, max_patches: 4, max_files: 4, max_lines: 12, long_last_line_chance: 2, ..Default::default() };
         let ws = gen_ws(ch, cx, &o);
         let mut opts = gen_opts(ch, true);
         opts.threads = *ch.pick(&[1usize, 1, 2, 4]);
@@ -779,6 +779,32 @@ impl Prop for C18 {
                 }
             }
         }
+        // permission fault: unprivileged user, the directory of a file that must be replaced or removed is
+        // read-only (unlink fails with EACCES)
+        if n % 2 == 0 {
+            if let Some(r) = crate::props::cli2::readonly_dir_phase(ws, &case.opts, cx) {
+                cx.label("fault-unlink-eacces-unprivileged");
+                if r.obs.out.exit == Exit::Timeout {
+                    return Verdict::Inconclusive("watchdog".into());
+                }
+                cx.nontrivial = true;
+                cx.sub_hashes.push(fnv(format!("ro|{}", r.victim).as_bytes()));
+                let what = format!("unlink of a file in the read-only directory {:?} fails (unprivileged run)", r.dir);
+                match r.obs.out.exit {
+                    Exit::Code(1) => {}
+                    Exit::Code(0) => return Verdict::Fail(format!("{}: the push reports success (exit 0)", what)),
+                    ref other => return Verdict::Fail(format!("{}: crashed: {:?}; stderr: {}", what, other, ws::lossy(&r.obs.out.stderr))),
+                }
+                let err = String::from_utf8_lossy(&r.obs.out.stderr).into_owned();
+                if !(err.contains("Failed to save") && err.contains(&r.dir)) && exp.applied == exp.requested {
+                    return Verdict::Fail(format!("{}: the error message does not name a file in that directory: {}", what, ws::lossy(&r.obs.out.stderr)));
+                }
+                let got_applied: Vec<String> = r.obs.snap.get(&b".pc/applied-patches".to_vec()).map(|e| String::from_utf8_lossy(&e.bytes).lines().map(|s| s.to_string()).collect()).unwrap_or_default();
+                if !got_applied.is_empty() {
+                    return Verdict::Fail(format!("{}: applied-patches gained {:?}", what, got_applied));
+                }
+            }
+        }
         // obstacles: real faults without any hook - a path component that has the wrong type
         {
             let mut obstacles: Vec<(String, String, bool)> = vec![(".pc".into(), ".pc is a regular file".into(), false)];
@@ -847,7 +873,10 @@ impl Prop for C18 {
             if kind == "write" || kind == "rej-write" || kind == "backup" {
                 let rel = path.trim_start_matches("./").to_string();
                 if let Some((d, _)) = base_files.get(&rel) {
-                    if !written.iter().any(|(p, _)| p == &rel) {
+                    // with several threads a run-ahead worker may load a file of a later patch and re-save it
+                    // unchanged - or not, depending on timing: only files that really change must be written
+                    let surely_written = case.opts.threads == 1 || ws.spec.tree.files.get(&rel).map_or(true, |f| &f.data.0 != d);
+                    if surely_written && !written.iter().any(|(p, _)| p == &rel) {
                         written.push((rel, d.len()));
                     }
                 }
